@@ -428,12 +428,12 @@ func init() {
 					ascii = false
 				}
 			}
-			if r.Abs != d.Abs || (ascii && r.Vol != d.Vol) {
-				return core.Disagree("Paths.isWindowsAbs? ≠ paths.isWindowsAbs")
-			}
 			// oracle: the real function against the SPECIFICATION of "Windows-absolute" (Spec.winAbs: drive or UNC form)
 			if r.Abs != d.Spec {
 				return core.Fail("winabs-spec", fmt.Sprintf("isWindowsAbs(%q) = %v but the specification (drive letter or \\\\server\\share form) says %v", a.P, r.Abs, d.Spec))
+			}
+			if r.Abs != d.Abs || (ascii && r.Vol != d.Vol) {
+				return core.Disagree("Paths.isWindowsAbs? ≠ paths.isWindowsAbs")
 			}
 			return nil
 		},
@@ -759,8 +759,9 @@ func init() {
 			}
 			var a symlinkArgs
 			json.Unmarshal(args, &a)
-			// correspondence: the link-table model of ResolveSymbolicLink against the real function
-			{
+			// correspondence: the link-table model of ResolveSymbolicLink against the real function.
+			// Evaluated AFTER the oracle below: a failing input (the real code breaks the property) outranks a broken tie.
+			tie := func() *core.Verdict {
 				var rr struct {
 					FirstRaw *string         `json:"first_raw"`
 					FirstErr json.RawMessage `json:"first_err"`
@@ -783,6 +784,7 @@ func init() {
 						return core.Disagree(fmt.Sprintf("Sym.resolveSym ≠ ResolveSymbolicLink: model %s, real %s", model, *rr.FirstRaw))
 					}
 				}
+				return nil
 			}
 			var r struct {
 				First     *string         `json:"first"`
@@ -802,7 +804,7 @@ func init() {
 				if r.First != nil {
 					return core.Fail("symlink:"+a.Name+":no-error", fmt.Sprintf("watch path %q goes through a broken symbolic link but resolves to %s", a.Path, *r.First))
 				}
-				return nil
+				return tie()
 			}
 			if r.First == nil {
 				return core.Fail("symlink:"+a.Name+":error", fmt.Sprintf("watch path %q: resolution fails (%s), expected %s", a.Path, r.FirstErr, r.Want))
@@ -816,7 +818,7 @@ func init() {
 			if r.Second == nil || *r.Second != *r.First {
 				return core.Fail("nonidempotent:develop.watch:"+a.Name, fmt.Sprintf("watch path %q resolves to %s, resolving again gives %v %s", a.Path, *r.First, r.Second, r.SecondErr))
 			}
-			return nil
+			return tie()
 		},
 	})
 
